@@ -35,8 +35,8 @@ PLANS = {
         thorough=[("play", "hash", ["-plies", "80"], 5, 50000), ("walk", "hash", ["-plies", "30"], 4, 50000),
                   ("transp", "", [], 4, 12000), ("searchops", "", [], 3, 90000)]),
     "C05": dict(
-        quick=[("positions", "gen", [], 10, 6000), ("play", "gen", ["-plies", "40"], 6, 6000)],
-        thorough=[("positions", "gen", [], 10, 60000), ("play", "gen", ["-plies", "60"], 6, 60000)]),
+        quick=[("positions", "gen", [], 9, 6000), ("play", "gen", ["-plies", "40"], 5, 6000), ("ucimoves", "", [], 2, 60)],
+        thorough=[("positions", "gen", [], 9, 60000), ("play", "gen", ["-plies", "60"], 5, 60000), ("ucimoves", "", [], 2, 600)]),
     "C09": dict(
         quick=[("positions", "status", [], 9, 6000), ("play", "status", ["-plies", "80"], 7, 6000)],
         thorough=[("positions", "status", [], 9, 60000), ("play", "status", ["-plies", "100"], 7, 60000)]),
